@@ -46,6 +46,19 @@ EXECUTE_PATTERN = re.compile(
 )
 
 
+def _is_inplace_flag(t: str) -> bool:
+    """True for -i, -i.bak, --in-place[=SUFFIX] and for -i inside a cluster (-ni, -Ei)."""
+    if t.startswith("--in-place"):
+        return True
+    if t.startswith("-") and not t.startswith("--"):
+        for c in t[1:]:
+            if c == "i":
+                return True
+            if c in "efl":
+                return False  # takes the rest of the cluster as its own argument
+    return False
+
+
 def _extract_scripts(tokens: list[str]) -> list[str]:
     """Extract sed script strings from command tokens."""
     scripts = []
@@ -79,7 +92,7 @@ def _extract_scripts(tokens: list[str]) -> list[str]:
         # Skip other flags
         if t.startswith("-"):
             # Handle -i with optional suffix
-            if t == "-i" or t.startswith("-i") or t.startswith("--in-place"):
+            if _is_inplace_flag(t):
                 i += 1
                 continue
             # Other flags
@@ -142,7 +155,7 @@ def _extract_inplace_files(tokens: list[str]) -> list[str]:
             continue
 
         # Skip -i variants
-        if t == "-i" or t.startswith("-i") or t.startswith("--in-place"):
+        if _is_inplace_flag(t):
             i += 1
             continue
 
@@ -183,10 +196,7 @@ def classify(ctx: HandlerContext) -> Classification:
     # Check for -i flag (in-place modification)
     has_inplace = False
     for t in tokens[1:]:
-        if t == "-i" or t.startswith("-i"):
-            has_inplace = True
-            break
-        if t == "--in-place" or t.startswith("--in-place"):
+        if _is_inplace_flag(t):
             has_inplace = True
             break
 
